@@ -12,6 +12,9 @@ LEVEL = "exploration"
 QUICK_SHARDS = 4
 MIN_NONTRIVIAL = 50
 RULE = (
+    "Large conjugated systems (perylene, benzo[a]pyrene: 20 unsaturated atoms "
+    "in one matching problem; one atom order in the quick tier, eight in the "
+    "thorough tier). "
     "(structural) random symmetric 0/1 matrices (n <= 8, density 0.1-0.9, "
     "isolated and over-valent atoms included) with element lists over the "
     "elements the routine has valence data for. Oracle: the returned matrix "
@@ -312,3 +315,22 @@ def run(ctx):
 
     ctx.hyp("c18", S.mapped(900, gen), check, ctx.scale(20000, 400000),
             shrinker=shrink)
+
+    # ---- large conjugated systems (seconds each: a handful, spread over
+    # the shards): >= 20 unsaturated atoms in one matching problem
+    big = ["c1cc2cccc3c4cccc5cccc(c(c1)c23)c54",
+           "c1ccc2c(c1)cc1ccc3cccc4ccc2c1c34"]
+    if getattr(ctx, "collect_only", False):
+        return
+    jobs = [(big[0], 0)] if ctx.quick else [(s_, v) for s_ in big
+                                            for v in range(4)]
+    tp = S.seed_tape(ctx.seed * 13 + 5)
+    for k, (smi, v) in enumerate(jobs):
+        n = rdgen.mol_from_smiles(smi).GetNumAtoms()
+        perm = tp.shuffle(range(n))
+        if k % ctx.nshards != ctx.shard:
+            continue
+        case = {"part": "chemical", "smiles": smi, "perm": perm,
+                "ids": list(range(1, n + 1))}
+        ctx.run_case(lambda c: check_case(ctx, c), case)
+        ctx.note(case, True, ["part:chemical", "large-conjugated-system"])
